@@ -141,6 +141,12 @@ func oracleConcurrent(r *Rng, keys []keyPair, tier string) {
 				continue
 			}
 			j := &concJob{kp: kp, m: m, packed: packed, incept: now - 3000, until: now + 3000, rounds: rounds[kp.key.Algorithm]}
+			switch n := sigLen(kp); { // large RSA moduli: signing costs milliseconds
+			case n >= 512:
+				j.rounds = min(j.rounds, 30)
+			case n >= 256:
+				j.rounds = min(j.rounds, 80)
+			}
 			if tier == "thorough" {
 				j.rounds *= 5
 			}
